@@ -96,10 +96,21 @@ def det(name, **args):
     return {"name": name, "args": {k: str(v) for k, v in args.items()}}
 
 
-def config(kill_plugin="kill_by_memory_size_or_growth", recursive=False):
+def config(kill_plugin="kill_by_memory_size_or_growth", recursive=False, parent_unwatched=False):
     kargs = {"cgroup": "workload/*", "recursive": "true" if recursive else "false"}
     if kill_plugin == "kill_by_pressure":
         kargs["resource"] = "memory"
+    if parent_unwatched:
+        # no plugin names `workload` itself: its context is created only when a child asks for its memory protection (the
+        # parent is opened by path at that moment, after the child was opened)
+        return {"rulesets": [
+            {"name": "pressure",
+             "detectors": [["usage", det("memory_above", cgroup="workload/*", threshold="100M", duration=0)]],
+             "actions": [det(kill_plugin, **kargs)], "post_action_delay": "0"},
+            {"name": "swap", "detectors": [["swap low", det("swap_free", threshold_pct=99)]],
+             "actions": [det("kill_by_swap_usage", cgroup="workload/*", threshold="1%", biased_swap_kill="true")],
+             "post_action_delay": "0"}],
+            "prekill_hooks": []}
     return {"rulesets": [
         {"name": "overview", "silence-logs": "engine",
          "detectors": [["always", det("dump_cgroup_overview", cgroup="workload/*,system")]],
@@ -141,8 +152,8 @@ KILLERS = ["kill_by_memory_size_or_growth", "kill_by_swap_usage", "kill_by_press
 CONTROL_FILES = sorted(cg("x", [1], 1)["files"].keys())
 
 
-def tick_scenario(kp, recursive=False, faults=(), ticks=3, proc=None, dtype=False, tree=None):
-    return {"kind": "tick", "config": config(kp, recursive), "tree": tree or base_tree(), "proc": dict(proc or PROC), "ticks": ticks,
+def tick_scenario(kp, recursive=False, faults=(), ticks=3, proc=None, dtype=False, tree=None, parent_unwatched=False):
+    return {"kind": "tick", "config": config(kp, recursive, parent_unwatched), "tree": tree or base_tree(), "proc": dict(proc or PROC), "ticks": ticks,
             "targets_pid_lo": 1000, "targets_pid_hi": 1999, "faults": list(faults), "dtype_unknown": dtype}
 
 
@@ -299,6 +310,20 @@ def gen(rng, tier):
         for t in ((0, 1) if tier == "quick" else (0, 1, 2)):
             for k in range(opens[t] if t < len(opens) else 0):
                 yield tick_scenario(kp, recursive=False, faults=[{"tick": t, "at_open": k, "op": "recreate", "path": "workload/a"}])
+    # the parent of the watched cgroups is named by no plugin (its context is made on demand, by path): the whole subtree goes
+    # away at open index k
+    for kp in KILLERS[:2] if tier == "quick" else KILLERS:
+        sc0 = tick_scenario(kp, parent_unwatched=True)
+        sc0["id"] = "baseline-pu"
+        opens_pu = _baseline_opens.get(("pu", kp))
+        if opens_pu is None:
+            exe = core.build_harness(HARNESS, FLAVOUR)
+            opens_pu = core.run_harness(exe, [sc0], timeout=TIMEOUT)["baseline-pu"].get("opens", [60, 60, 60])
+            _baseline_opens[("pu", kp)] = opens_pu
+        for t, n in enumerate(opens_pu[:2 if tier == "quick" else 3]):
+            for k in range(n):
+                for op in ("rm", "recreate"):
+                    yield tick_scenario(kp, parent_unwatched=True, faults=[{"tick": t, "at_open": k, "op": op, "path": "workload"}])
     # removal / re-creation at open index k
     for kp in KILLERS:
         opens = baseline_opens(kp)
